@@ -55,13 +55,17 @@ pub fn gen_replay(rng: &mut Rng, k: usize, o: &GenOpts) -> (Replay, Vec<String>)
     else { let mode = rng.next() % 4; for i in 1..r.frames.len() { let prev = r.frames[i-1].id; r.frames[i].id = match mode {
         0 => prev + 1, 1 => if rng.next() % 3 == 0 { prev } else { prev + 1 }, 2 => if rng.next() % 4 == 0 { (prev - (rng.next() % 4) as i32).max(-123) } else { prev + 1 },
         _ => if rng.next() % 5 == 0 { -123 + (rng.next() % (i as u64 + 1)) as i32 } else { prev + 1 } }; } }
+    // item counts per frame at the boundaries of small counters (the recorder never emits that many; the format allows it)
+    if gte(v,3,0) && !r.frames.is_empty() && k % 8 == 1 { let n = [15usize, 16, 17, 255, 256, 257, 300][(k / 8) % 7]; let fi = (rng.next() as usize) % r.frames.len(); let isz = r.frames[fi].items.first().map_or(0, |x| x.len());
+        let isz = if isz == 0 { crate::gen::item_size(v) - 4 } else { isz }; while r.frames[fi].items.len() < n { r.frames[fi].items.push(rng.bytes(isz)); } }
     let shape = if k % 2 == 0 { (k / 2) % 6 } else { (rng.next() % 6) as usize };
     match shape { 0 => r.end = None, 1 => r.metadata = None, 2 => r.double_end = true, 3 => { r.end = None; r.metadata = None; } _ => {} }
     if let Some(e) = r.end.as_mut() { e[0] = [0u8, 1, 2, 3, 7][(rng.next() % 5) as usize]; if e.len() >= 2 { e[1] = [255u8, 0, 1, 2, 3][(rng.next() % 5) as usize]; } if e.len() >= 6 { for j in 2..6 { e[j] = [255u8, 0, 1, 2, 3][(rng.next() % 5) as usize]; } } }
     if gte(v,3,3) && rng.next() % 2 == 0 { let nb = 1 + (rng.next() % 3) as usize; let last = match rng.next() % 6 { 0 => 512, 1 => 1, 2 => 511, _ => 1 + (rng.next() % 512) as u32 }; let actual = (nb as u32 - 1) * 512 + last; r.gecko = Some((rng.bytes(512 * nb), actual)); }
     if rng.next() % 3 == 0 { let mut m = vec![]; gen_tree(rng, 1, &mut m); r.metadata = r.metadata.map(|_| m); }
     let tags = vec![format!("v{}.{}", v.0, v.1), format!("ports{}", pl.len()), format!("slots{}", nslots), format!("frames{}", r.frames.len().min(9)), format!("absent{}", absent.len().min(5)),
-        format!("shape{}", shape), format!("gecko{}", r.gecko.is_some() as u8), format!("regime{}", if gte(v,3,0) { "A" } else if gte(v,2,2) { "B" } else { "C" })];
+        format!("shape{}", shape), format!("gecko{}", r.gecko.is_some() as u8), format!("regime{}", if gte(v,3,0) { "A" } else if gte(v,2,2) { "B" } else { "C" }),
+        format!("maxitems:{}", match r.frames.iter().map(|f| f.items.len()).max().unwrap_or(0) { 0..=5 => "0-5", 6..=17 => "15-17", 18..=255 => "255", _ => "256+" })];
     (r, tags)
 }
 
@@ -513,7 +517,7 @@ fn ubj(rng: &mut Rng, ctx: &mut Ctx) {
     for k in 0..ctx.n {
         let mut body = vec![]; gen_tree(rng, 1, &mut body);
         let mut clean = true;
-        if k % 40 == 39 { let d = 120 + (rng.next() % 20) as usize; body.clear(); for _ in 0..d - 1 { body.extend(b"U\x01a{"); } for _ in 0..d - 1 { body.push(b'}'); } clean = d <= 127; }
+        if k % 20 == 19 { let d = [127usize, 128, 126, 129, 120 + (rng.next() % 20) as usize, 1000][(k / 20) % 6]; body.clear(); for _ in 0..d - 1 { body.extend(b"U\x01a{"); } for _ in 0..d - 1 { body.push(b'}'); } clean = d <= 127; }
         if k % 40 == 19 { // wide but shallow: many maps in total, little nesting
             let n = 100 + (rng.next() % 120) as usize; body.clear(); for i in 0..n { body.extend(b"U\x03"); body.extend(format!("{:03}", i).as_bytes()); body.push(b'{'); if i % 7 == 0 { body.extend(b"U\x01x{U\x01yl\x00\x00\x00\x01}"); } body.push(b'}'); } clean = true; }
         if k % 9 == 8 && !body.is_empty() { let i = (rng.next() as usize) % body.len(); body[i] = (rng.next() >> 8) as u8; clean = false; }
@@ -546,6 +550,9 @@ fn peppi_suite(rng: &mut Rng, ctx: &mut Ctx) {
     for k in 0..ctx.n {
         let (mut r, tags) = gen_replay(rng, k, &go);
         if k == 0 { r = simple((3, 16, 0), &[], 2, &[], rng); } // the recorded finding, in every run
+        // metadata nested around the deepest level the .slp reader accepts (127 maps): whatever it accepts must survive the JSON copy
+        let deep = if k % 12 == 5 { Some([127usize, 128, 126, 129][(k / 12) % 4]) } else { None };
+        if let Some(d) = deep { let mut m = vec![]; for _ in 0..d - 1 { m.extend(b"U\x01a{"); } for _ in 0..d - 1 { m.push(b'}'); } r.metadata = Some(m); }
         let b = encode(&r);
         let comp = comps[k % 3]; let hash = k % 2 == 0;
         let zero_ports = slots_of(&r.start_block).is_empty();
@@ -591,7 +598,7 @@ fn peppi_suite(rng: &mut Rng, ctx: &mut Ctx) {
             if names != exp { fails.push(("C18".into(), format!("entries {:?} != {:?}", names, exp))); }
             Ok(format!("ok {}", parts.join("|")))
         }));
-        let line = match res { Err(_) => { if zero_ports && !r.frames.is_empty() { fails.push(("C02".into(), "KNOWN:zero-ports panic in peppi::write (no occupied port)".into())); } else { fails.push(("C02".into(), "panic in the .slpp writer/reader".into())); fails.push(("C18".into(), "panic in the .slpp writer".into())); } "panic".to_string() }, Ok(Err(e)) => { fails.push(("C02".into(), "well-formed replay could not be converted to .slpp".into())); e }, Ok(Ok(s)) => s };
+        let line = match res { Err(_) => { if zero_ports && !r.frames.is_empty() { fails.push(("C02".into(), "KNOWN:zero-ports panic in peppi::write (no occupied port)".into())); } else { fails.push(("C02".into(), "panic in the .slpp writer/reader".into())); fails.push(("C18".into(), "panic in the .slpp writer".into())); } "panic".to_string() }, Ok(Err(e)) => { if !deep.map_or(false, |d| d > 127) { fails.push(("C02".into(), "well-formed replay could not be converted to .slpp".into())); } e }, Ok(Ok(s)) => s };
         let hs = if hash { format!("xxh3:{:016x}", xxhash_rust::xxh3::xxh3_64(&b)) } else { "-".to_string() };
         let mut c = Case::new(format!("pwrite 1 {} {}", hs, hex(&b)), line); c.oracle = fails; c.tags = tags; c.tags.push(format!("comp{}", k % 3));
         ctx.push(c);
